@@ -17,10 +17,10 @@ claims = {
    text="Every function that installs a recover handler (VM.run, VM.Func and through it Call, parse, compiler.run) is verified with the handler body executed from the state of each panic raised on the protected path (what a panicking callee may have modified is unknown there); `nopanic` on such a function therefore means that no Go panic escapes it, and code before the defer is unprotected. The error builder (btErr, pos.String/info) is total. Stage functions proved panic-free: rawLoadFile, checkConstraint, joinFiles, treeDump, the loader's result shape (every package tree handed on is non-empty), the hash-table operations; token.Append rejects nil children. Repaired defects found by these obligations: D6 (btErr), D7 (compile handler, nil operand), D8 (import cycle), D20 (nil file system). NOT covered: termination of tokenize/parse/load/compile (no variants; tokenize sits on text/scanner and is assumed), the glue code of Eval and Load themselves (error wrapping, pkgs[len(pkgs)-1]), tree-shape facts beyond 'no nil child' (assumed where used, listed in evidence), exec's own internal state at panic time (made irrelevant by the total error builder, except the listed position-validity assumption A-POS).",
    technique=TECH + "; recover handlers executed symbolically from every panic state"),
  'C04': dict(level='proof', design='5.4',
-   text="Contracts on the numeric core of value.go (all operator methods, comparisons, assign, convert) state Go's fixed-width semantics row by row (operand types x operator) with symbolic operands; the exec cases of the arithmetic/typing instructions (INCDEC, LOCALINCDEC, NEGATE, BITCOMPLEMENT, CAST, CONVERT, LOCALSET, GLOBALSET) and the variadic packing of call() are proved against them. Carrier lemmas (int<->float64) are proved each run with real IEEE semantics. Compiler-side emission of CAST is not yet under contract.",
+   text="Contracts on the numeric core of value.go (all operator methods, comparisons, assign, convert) state Go's fixed-width semantics row by row (operand types x operator) with symbolic operands; the exec cases of the arithmetic/typing instructions (INCDEC, LOCALINCDEC, NEGATE, BITCOMPLEMENT, CAST, CONVERT, LOCALSET, GLOBALSET) and the variadic packing of call() are proved against them. Carrier lemmas (int<->float64) are proved each run with real IEEE semantics. The compiler's CAST guard list for typed declarations is checked by a table obligation (D4 repaired).",
    technique=TECH),
  'C07': dict(level='proof', design='5.7',
-   text="VM side: a case contract for every case of (*VM).exec (the ISA table: operand depth needed, exact stack delta, the only cells written, next instruction) is discharged from the real case bodies, together with the exec loop invariant (caller frames untouched, frame object restored) and the call protocol (call, callReady, mkFunc's activation closure). The compiler-side obligations (compile() emits code meeting the ISA preconditions) appear as preconditions of the case contracts and are not yet proved.",
+   text="VM side: a case contract for every case of (*VM).exec (the ISA table: operand depth needed, exact stack delta, the only cells written, next instruction) is discharged from the real case bodies, together with the exec loop invariant (caller frames untouched, frame object restored) and the call protocol (call, callReady, mkFunc's activation closure). Compiler/parser side: only thin contracts (requested result counts: getDecl, assignLed, switchNud, forNud, return case; D10 repaired); that compile() emits code meeting every ISA precondition is NOT proved (the preconditions of the case contracts stay assumptions).",
    technique=TECH),
  'C09': dict(level='proof', design='5.9',
    text="Callee protocol contracts: callReady (arity and result-count errors, trimming), call (variadic packing: length, declared element type, order), the activation closure built by mkFunc (arguments typed in place and in order, zeroed slots, backtrace push/pop, results spliced, frame restored), newFunc, FUNC/CALL/CALLVARIADIC/FASTCALL/FASTCALLATTR cases, joinParams/splitParams round trip. newMethod (receiver inserted under the arguments, arity, variadic element type: D12 repaired). The NewFunc adapters are not yet under contract.",
